@@ -116,6 +116,12 @@ def collect(ctx, nprog, with_tests=True, seed_offset=0, explore_kw=None):
                   + "flow main\n  start comp\n  match Never()\n"))
     progs.append(("conflict-catch:3", "flow comp\n  match E1()\n  start A1Action(x=1) or A2Action(x=1)\n  match E2()\n\nflow wrap\n  await comp\n  send Out1()\n\n" + rival
                   + "flow main\n  start wrap\n  start rival\n  match Never()\n"))
+    # internal events written by hand: a flow started / finished / stopped by flow id without the optional arguments the
+    # generated statements carry (no instance uid)
+    progs.append(("hand-written-internal-events:0", "flow g\n  match E2()\n  send Out1()\n\nflow w\n  match E1()\n  send Out2()\n\n"
+                  "flow main\n  start w\n  match E1()\n  send StartFlow(flow_id=\"g\")\n  match E3()\n  send Out3()\n  match Never()\n"))
+    progs.append(("hand-written-internal-events:1", "flow g\n  match E2()\n  send Out1()\n\nflow main\n  start g\n  match E1()\n  send StopFlow(flow_id=\"g\")\n"
+                  "  match E3()\n  send FinishFlow(flow_id=\"nosuchflow\")\n  send StartFlow(flow_id=\"nosuchflow\")\n  send Out3()\n  match Never()\n"))
     srcs = dict(progs)
     res = v2corpus.explore_many(progs, ctx.seed, **explore_kw)
     traces, errors = [], []
